@@ -28,11 +28,12 @@ pub fn meta() -> Meta {
 (parse -> add_response_to_resources under the write lock, or the reply path) and resolver (three peeks on the 4096-byte buffer -> parse -> answer scan) are re-enacted with the real functions on \
 datagrams of length 0..=12 (patterned exhaustively), the C01 corpus with every truncation, hostile-name responses under the watched service, hostile queries, havoc and sizes up to 9000, against \
 stores pre-filled with colliding names while an application thread mutates and reads the shared store; monitors: panic recorder in every thread, RwLock poison probe after every datagram, \
-re-parse of every produced reply. level 2 (real sockets, sampled): sync and tokio SimpleMdnsResponder, ServiceDiscovery (with and without on_discovery) and OneShotMdnsResolver run in-process on \
-loopback multicast; batches of datagrams are followed by marker queries (unicast-response bit, unique names) whose replies prove each loop consumed the batch; monitors: global panic hook \
-(library threads and tokio workers), lock-health probes through the public API afterwards. A missing marker reply without a recorded panic is inconclusive. non-trivial = datagram that is not a \
+re-parse of every produced reply. level 2 (real sockets, sampled): sync and tokio SimpleMdnsResponder, ServiceDiscovery (without on_discovery, with it, and with it after the application dropped the receiver) and OneShotMdnsResolver run in-process on \
+loopback multicast; batches of datagrams are followed by marker queries (unicast-response bit, unique names) whose replies prove each loop consumed the batch; every reply datagram received from a real \
+service (marker replies, and two replies of about 12.8 KB built from 60 TXT records) must be a well-formed DNS message for Packet::parse and the envelope walker; monitors: global panic hook \
+(library threads and tokio workers), lock-health probes through the public API afterwards. A missing marker reply without a recorded panic is inconclusive; three consecutive silent rounds of one service while others answer are a stopped loop; if level 2 cannot start the run is inconclusive. non-trivial = datagram that is not a \
 well-formed message (parser rejects it) or carries a hostile name; distinct = hash of bytes",
-        assumptions: &["level 1 re-enacts the private loop bodies and cannot see edits inside them; level 2 sees them for the sampled datagrams", "loopback multicast on 224.0.0.251:5353 must be available for level 2 (else skipped)"],
+        assumptions: &["level 1 re-enacts the private loop bodies and cannot see edits inside them; level 2 sees them for the sampled datagrams", "loopback multicast on 224.0.0.251:5353 must be available for level 2 (else the run says inconclusive)"],
         exhaustive: false,
         min_distinct: 2000,
     }
@@ -404,11 +405,11 @@ fn marker_query(id: u16, name: &str, qtype: TYPE) -> Vec<u8> {
     p.build_bytes_vec().unwrap()
 }
 
-/// send the marker and wait for a reply carrying its id; true = the loop answered
-fn probe(sock: &UdpSocket, group: &SocketAddr, m: &Marker, id: u16, wait: Duration) -> bool {
+/// send the marker and wait for a reply carrying its id; Some(reply) = the loop answered
+fn probe_reply(sock: &UdpSocket, group: &SocketAddr, m: &Marker, id: u16, wait: Duration) -> Option<Vec<u8>> {
     let q = marker_query(id, &m.name, m.qtype);
     let deadline = Instant::now() + wait;
-    let mut buf = [0u8; 9000];
+    let mut buf = vec![0u8; 65535];
     let mut sent = Instant::now() - Duration::from_secs(1);
     while Instant::now() < deadline {
         if sent.elapsed() > Duration::from_millis(250) {
@@ -418,13 +419,35 @@ fn probe(sock: &UdpSocket, group: &SocketAddr, m: &Marker, id: u16, wait: Durati
         match sock.recv_from(&mut buf) {
             Ok((n, _)) => {
                 if n >= 12 && u16::from_be_bytes([buf[0], buf[1]]) == id && buf[2] & 0x80 != 0 {
-                    return true;
+                    return Some(buf[..n].to_vec());
                 }
             }
             Err(_) => {}
         }
     }
-    false
+    None
+}
+
+/// "Any reply produced is itself a parseable DNS message": a reply datagram sent by a real service
+fn judge_real_reply(ctx: &mut Ctx, what: &str, reply: &[u8]) {
+    ctx.count("level2_real_replies_parsed");
+    let lib_ok = monitor::guard(|| Packet::parse(reply).is_ok()).unwrap_or(false);
+    let walker_ok = decode_envelope(reply).map(|e| e.end == reply.len()).unwrap_or(false);
+    if !lib_ok || !walker_ok {
+        ctx.violation("reply-parseable", &format!("unparseable-real-reply:{}", what),
+            format!("{} sent a {}-byte reply that is not a well-formed DNS message (Packet::parse ok: {}, envelope walker ok: {})", what, reply.len(), lib_ok, walker_ok),
+            json!({"family": "level2", "idx": 0, "reply": hex(&reply[..reply.len().min(600)]), "reply_len": reply.len()}));
+    }
+}
+
+fn probe(ctx: &mut Ctx, sock: &UdpSocket, group: &SocketAddr, m: &Marker, id: u16, wait: Duration) -> bool {
+    match probe_reply(sock, group, m, id, wait) {
+        Some(r) => {
+            judge_real_reply(ctx, m.what, &r);
+            true
+        }
+        None => false,
+    }
 }
 
 fn level2(ctx: &mut Ctx) {
@@ -434,6 +457,7 @@ fn level2(ctx: &mut Ctx) {
         Ok(s) => s,
         Err(e) => {
             ctx.notes.push(format!("level 2 skipped: cannot bind a UDP socket: {}", e));
+            ctx.inconclusive.push("level 2 (real services on loopback multicast) could not start".into());
             ctx.count("level2_skipped");
             return;
         }
@@ -453,20 +477,27 @@ fn level2(ctx: &mut Ctx) {
         let disc_a = sync_discovery::ServiceDiscovery::new(InstanceInformation::new("self".into()).with_port(1), &svc_a, 10);
         let (tx, rx) = std::sync::mpsc::channel();
         let disc_b = sync_discovery::ServiceDiscovery::new_with_scope(InstanceInformation::new("self".into()).with_port(2), &svc_b, 10, Some(tx), simple_mdns::NetworkScope::V4);
-        (responder, rname, svc_a, disc_a, svc_b, disc_b, rx)
+        // a discovery whose application dropped the receiving end of its on_discovery channel
+        let svc_d = format!("_vd{}._tcp.local", pid);
+        let (txd, rxd) = std::sync::mpsc::channel();
+        drop(rxd);
+        let disc_d = sync_discovery::ServiceDiscovery::new_with_scope(InstanceInformation::new("self".into()).with_port(4), &svc_d, 10, Some(txd), simple_mdns::NetworkScope::V4);
+        (responder, rname, svc_a, disc_a, svc_b, disc_b, rx, svc_d, disc_d)
     });
-    let (mut responder, rname, svc_a, disc_a, svc_b, disc_b, _rx) = match started {
+    let (mut responder, rname, svc_a, disc_a, svc_b, disc_b, _rx, svc_d, disc_d) = match started {
         Ok(x) => x,
         Err(pn) => {
             ctx.notes.push(format!("level 2 skipped: starting the sync services panicked: {} at {}", pn.message, pn.location));
+            ctx.inconclusive.push("level 2 (real services on loopback multicast) could not start".into());
             ctx.count("level2_skipped");
             return;
         }
     };
-    let (disc_a, disc_b) = match (disc_a, disc_b) {
-        (Ok(a), Ok(b)) => (a, b),
-        (a, b) => {
+    let (disc_a, disc_b, _disc_d) = match (disc_a, disc_b, disc_d) {
+        (Ok(a), Ok(b), Ok(d)) => (a, b, d),
+        (a, b, _) => {
             ctx.notes.push(format!("level 2 skipped: ServiceDiscovery could not start (multicast unavailable?): {:?} {:?}", a.err().map(|e| e.to_string()), b.err().map(|e| e.to_string())));
+            ctx.inconclusive.push("level 2 (real services on loopback multicast) could not start: ServiceDiscovery::new failed".into());
             ctx.count("level2_skipped");
             return;
         }
@@ -475,13 +506,17 @@ fn level2(ctx: &mut Ctx) {
     let rt = tokio::runtime::Builder::new_multi_thread().worker_threads(2).enable_all().build().unwrap();
     let aname = format!("marker-a{}.local", pid);
     let svc_c = format!("_vc{}._tcp.local", pid);
-    let (mut aresponder, adisc, _arx) = {
+    let svc_e = format!("_ve{}._tcp.local", pid);
+    let (mut aresponder, adisc, _arx, _adisc_e) = {
         let _g = rt.enter();
         let mut ar = async_discovery::SimpleMdnsResponder::new(10);
         rt.block_on(ar.add_resource(ResourceRecord::new(Name::new(&aname).unwrap().into_owned(), CLASS::IN, 10, RData::A(A { address: 0x7F000002 }))));
         let (tx, rx) = tokio::sync::mpsc::channel(1024);
         let ad = async_discovery::ServiceDiscovery::new_with_scope(InstanceInformation::new("self".into()).with_port(3), &svc_c, 10, Some(tx), simple_mdns::NetworkScope::V4);
-        (ar, ad, rx)
+        let (txe, rxe) = tokio::sync::mpsc::channel(4);
+        drop(rxe);
+        let ae = async_discovery::ServiceDiscovery::new_with_scope(InstanceInformation::new("self".into()).with_port(5), &svc_e, 10, Some(txe), simple_mdns::NetworkScope::V4);
+        (ar, ad, rx, ae)
     };
     let markers = vec![
         Marker { what: "sync SimpleMdnsResponder", name: rname.clone(), qtype: TYPE::A },
@@ -489,6 +524,8 @@ fn level2(ctx: &mut Ctx) {
         Marker { what: "sync ServiceDiscovery (on_discovery)", name: svc_b.clone(), qtype: TYPE::PTR },
         Marker { what: "tokio SimpleMdnsResponder", name: aname.clone(), qtype: TYPE::A },
         Marker { what: "tokio ServiceDiscovery (on_discovery)", name: svc_c.clone(), qtype: TYPE::PTR },
+        Marker { what: "sync ServiceDiscovery (on_discovery receiver dropped)", name: svc_d.clone(), qtype: TYPE::PTR },
+        Marker { what: "tokio ServiceDiscovery (on_discovery receiver dropped)", name: svc_e.clone(), qtype: TYPE::PTR },
     ];
     std::thread::sleep(Duration::from_millis(300));
     // all loops must answer before any hostile traffic, otherwise the environment cannot host level 2
@@ -496,7 +533,7 @@ fn level2(ctx: &mut Ctx) {
     let mut alive: Vec<bool> = Vec::new();
     for m in &markers {
         mid = mid.wrapping_add(1);
-        alive.push(probe(&sock, &group, m, mid, Duration::from_secs(3)));
+        alive.push(probe(ctx, &sock, &group, m, mid, Duration::from_secs(3)));
     }
     if alive.iter().any(|a| !*a) {
         let dead: Vec<&str> = markers.iter().zip(alive.iter()).filter(|(_, a)| !**a).map(|(m, _)| m.what).collect();
@@ -504,6 +541,7 @@ fn level2(ctx: &mut Ctx) {
             report_foreign(ctx, "before any hostile datagram");
         }
         ctx.notes.push(format!("level 2 skipped: no marker reply from {:?} before any hostile traffic (multicast loopback unavailable or port 5353 busy)", dead));
+        ctx.inconclusive.push(format!("level 2 (real services on loopback multicast) did not run: no marker reply from {:?} before any hostile traffic", dead));
         ctx.count("level2_skipped");
         return;
     }
@@ -545,7 +583,7 @@ fn level2(ctx: &mut Ctx) {
     let mut inconclusive_markers = 0u64;
     let mut violated = false;
     let mut misses: Vec<u32> = vec![0; markers.len()];
-    let svc_names = [svc_a.clone(), svc_b.clone(), svc_c.clone()];
+    let svc_names = [svc_a.clone(), svc_b.clone(), svc_c.clone(), svc_d.clone(), svc_e.clone()];
     while sent < total && !violated {
         let mut batch_hex: Vec<String> = Vec::new();
         for _ in 0..batch {
@@ -565,7 +603,7 @@ fn level2(ctx: &mut Ctx) {
             };
             if fam == "hostile-response" || fam == "resolver-bait" {
                 // re-target at one of the live services: replace the watched service label
-                let target = &svc_names[(idx % 3) as usize];
+                let target = &svc_names[((idx / 10) % 5) as usize];
                 let from = b"\x06_verif";
                 let to_label = target.split('.').next().unwrap().as_bytes();
                 if to_label.len() == 6 + (pid.to_string().len()) - 3 || true {
@@ -592,7 +630,7 @@ fn level2(ctx: &mut Ctx) {
         let mut round_ok = vec![false; markers.len()];
         for (mi, m) in markers.iter().enumerate() {
             mid = mid.wrapping_add(1);
-            let ok = probe(&sock, &group, m, mid, Duration::from_secs(2));
+            let ok = probe(ctx, &sock, &group, m, mid, Duration::from_secs(2));
             round_ok[mi] = ok;
             if ok {
                 ctx.count("level2_marker_replies");
@@ -632,6 +670,39 @@ fn level2(ctx: &mut Ctx) {
             break;
         }
     }
+    // ---- replies far larger than an ordinary datagram, as the real responders send them ------------------------------
+    // 60 TXT records of 200 octets under one name: the reply (about 12.8 KB) fits a UDP datagram on loopback and must
+    // arrive as a well-formed DNS message (a reply cut at some byte limit is not one)
+    if !violated && !ctx.slow_tool {
+        let big_r = format!("bigtxt-r{}.local", pid);
+        let big_a = format!("bigtxt-a{}.local", pid);
+        let filled = monitor::guard(|| {
+            for k in 0..60u32 {
+                let text = format!("{:03}{}", k, "t".repeat(197));
+                let txt = simple_dns::rdata::TXT::new().with_string(&text).unwrap().into_owned();
+                responder.add_resource(ResourceRecord::new(Name::new(&big_r).unwrap().into_owned(), CLASS::IN, 10, RData::TXT(txt.clone())));
+                rt.block_on(aresponder.add_resource(ResourceRecord::new(Name::new(&big_a).unwrap().into_owned(), CLASS::IN, 10, RData::TXT(txt))));
+            }
+        });
+        if filled.is_ok() {
+            for (what, name) in [("sync SimpleMdnsResponder (large reply)", &big_r), ("tokio SimpleMdnsResponder (large reply)", &big_a)] {
+                let m = Marker { what, name: name.clone(), qtype: TYPE::TXT };
+                mid = mid.wrapping_add(1);
+                match probe_reply(&sock, &group, &m, mid, Duration::from_secs(3)) {
+                    Some(reply) => {
+                        ctx.count("level2_large_replies_received");
+                        ctx.max("level2_largest_reply_bytes", reply.len() as f64);
+                        judge_real_reply(ctx, what, &reply);
+                    }
+                    None => ctx.notes.push(format!("level 2: no reply to the large-reply query from the {} within 3 s (not judged)", what)),
+                }
+            }
+            if monitor::foreign_panic_count() > before {
+                report_foreign(ctx, "while answering a query with a large reply");
+                violated = true;
+            }
+        }
+    }
     // ---- a query whose reply cannot be sent in one UDP datagram --------------------------------------------
     // 1400 compressed questions for a name that owns 60 address records: the reply (84000 answers, > 1 MB) cannot be
     // sent; the handling of that datagram must end with the loop still running.
@@ -660,7 +731,7 @@ fn level2(ctx: &mut Ctx) {
                 for _round in 0..3 {
                     for (mi, m) in markers.iter().enumerate() {
                         mid = mid.wrapping_add(1);
-                        if probe(&sock, &group, m, mid, Duration::from_secs(2)) {
+                        if probe(ctx, &sock, &group, m, mid, Duration::from_secs(2)) {
                             ctx.count("level2_marker_replies");
                         } else {
                             silent[mi] += 1;
